@@ -32,10 +32,15 @@ python3 - "$OUT" "$PROP" "$NAME" "$rc_clean" "$rc_mut" "$suite" "$det" <<'PY'
 import json, os, sys
 out, prop, name, rc_clean, rc_mut, suite, det = sys.argv[1:]
 notes = open(out + "/notes.md").read() if os.path.exists(out + "/notes.md") else ""
+st = json.load(open(os.path.join(os.path.dirname(os.path.dirname(out)), "tools", "seeded_status.json")))
+key = f"{prop}-{name}"
+first = ("missed by the checks as they were; generator/oracle strengthened, now detected" if key in st["missed_then_strengthened"]
+         else "check strengthened from the author's description before the first run; now detected"
+         if key in st["strengthened_from_description_before_first_run"] else "detected at the first run")
 meta = {"property": prop, "name": name, "breaks": prop, "needs_to_manifest": notes.strip()[:1500],
         "demo_exit_clean": int(rc_clean), "demo_exit_with_change": int(rc_mut),
         "repo_test_suite_with_change": suite, "checks_against_change": det,
-        "detected": "VIOLATION" in det,
+        "detected": "VIOLATION" in det, "first_round_status": first,
         "commands": ["git -C /repo worktree add --detach <wt> HEAD", "PYTHONPATH=<wt> python demo.py  (clean)", "git apply patch.diff",
                      "PYTHONPATH=<wt> python demo.py  (changed)", "PYTHONPATH=<wt> python -m pytest -q -p no:cacheprovider --timeout=900 -x",
                      "VERIF_REPO=<wt> ./check <PROP> --tier quick"]}
